@@ -56,6 +56,58 @@ PROPERTIES["C06"] = {
     "technique": "TLA+ product state machine model checked by TLC; product state graph replayed on pairs of real objects",
 }
 
+import props_algo  # noqa: E402
+
+_ALGO_NOTE = ("exhaustive only up to the stated input sizes; trusted base: TLC, harness/algo*.hpp (builds the real input "
+              "graphs from the specification's values and encodes results), nlohmann-json; label types sampled by 7 kinds")
+PROPERTIES["C09"] = {
+    "run": props_algo.c09, "level": "model_checking",
+    "text": "Derived.tla writes reversal, both conversions and the six edge-list constructors as the loops the code runs over "
+            "the GraphOps operators; TLC checks their declarative meaning (exact reversed pairs/labels, reverse twice = id, "
+            "both orientations with the edge's label, U->D->U = id, label is one of the joined edges', 1+max vertices, equal to "
+            "adding one at a time) on EVERY graph / edge list within the bounds, and prints each case with the expected result; "
+            "the harness runs the real functions (vector, list, deque, set, multiset containers; 7 label kinds; 8 classes) on "
+            "two concrete representatives of each input and compares",
+    "note": _ALGO_NOTE + "; copy construction/assignment are exercised in C06's product walk",
+    "technique": "TLC enumeration of all small inputs with invariants on a TLA+ transcription; spec-generated expected outputs compared on the real functions",
+}
+PROPERTIES["C10"] = {
+    "run": props_algo.c10, "level": "model_checking",
+    "text": "Derived.tla: the getSubgraph loop equals the declarative induced subgraph for every graph on <=3-4 vertices and all "
+            "2^n subsets (TLC invariant); expected results replayed on the real getSubgraph; getSubgraphWithRemap results are "
+            "recorded (graph, S, result, map) and TLC validates RemapOK (any bijection) on each record, also for random 5-10 vertex graphs",
+    "note": _ALGO_NOTE,
+    "technique": "TLC enumeration + invariants; replay on real code; TLC validation of recorded remap results",
+}
+PROPERTIES["C11"] = {
+    "run": props_algo.c11, "level": "model_checking",
+    "text": "Search.tla defines hop distance, valid predecessors, the set of all predecessors and the set of all shortest paths "
+            "declaratively; TLC enumerates every digraph on <=3-4 and undirected graph on <=4-5 vertices; the harness runs all eight "
+            "BFS entry points from every source and TLC validates every record (distances, single predecessors, predecessor sets "
+            "without repeats, one path per destination, the complete duplicate-free set of shortest paths); random 5-12 vertex "
+            "graphs likewise; SearchAlgo.tla model checks the algorithms themselves",
+    "note": _ALGO_NOTE,
+    "technique": "declarative TLA+ specification; TLC validation of records of the real searches on TLC-enumerated and random inputs; algorithm model checked in SearchAlgo.tla",
+}
+PROPERTIES["C12"] = {
+    "run": props_algo.c12, "level": "model_checking",
+    "text": "Search.tla: minimum weighted distance as a Bellman-Ford fixpoint and tree consistency; TLC enumerates every weighted "
+            "digraph on <=2-3 and undirected on <=3-4 vertices over weights {0,1,2}; records of the real findGeodesicsDijkstra from "
+            "every source validated by TLC; random and zero-weight-cycle graphs likewise; every call runs under a scan cap so a "
+            "non-terminating change fails deterministically",
+    "note": _ALGO_NOTE + "; integer weights only",
+    "technique": "declarative TLA+ specification; TLC validation of recorded Dijkstra results; algorithm model checked in SearchAlgo.tla",
+}
+PROPERTIES["C19"] = {
+    "run": props_algo.c19, "level": "model_checking",
+    "text": "neighbourhood scans of the three predecessor searches are counted through a derived graph type and recorded; TLC "
+            "checks scans1<=V, scans2<=V+E, Dijkstra scans<=V+E+1 on every record: all small graphs (exhaustive), random graphs, and "
+            "path-explosive families (layered graphs with w^k shortest paths, grids, complete DAGs, zero-weight cycles); "
+            "SearchAlgo.tla model checks the bounds on the algorithm models",
+    "note": _ALGO_NOTE + "; the bound is on the number of getOutNeighbours calls, as the property states",
+    "technique": "scan counting via template graph type; TLC validation of scan counts in records; algorithm models with scan counters model checked",
+}
+
 NOT_APPLICABLE = {
     "C20": "compile-/link-time well-formedness of templates and headers: there is no state, transition or observable "
            "behaviour for a TLA+ specification to describe or for a trace to bind (DESIGN.md section 5)",
